@@ -10,14 +10,39 @@ use indicatif::{MultiProgress, ProgressBar, ProgressDrawTarget, ProgressFinish, 
 const T0: u64 = 1_000_000_000_000;
 fn fin_pf(f: &Fin) -> ProgressFinish { match f { Fin::Leave => ProgressFinish::AndLeave, Fin::Clear => ProgressFinish::AndClear, Fin::Abandon => ProgressFinish::Abandon, Fin::Msg(m) => ProgressFinish::WithMessage(m.clone().into()), Fin::AbandonMsg(m) => ProgressFinish::AbandonWithMessage(m.clone().into()) } }
 
-fn getters(pb: &ProgressBar) -> String { format!("{}/{:?}/{:?}/{:?}/{}", pb.position(), pb.length(), pb.message(), pb.prefix(), pb.is_finished()) }
+fn getters(pb: &ProgressBar) -> String { format!("{}/{:?}/{:?}/{:?}/{}/{:?}/{:?}/{:?}", pb.position(), pb.length(), pb.message(), pb.prefix(), pb.is_finished(), pb.eta(), pb.per_sec().to_bits(), pb.duration()) }
+
+/// operations outside the shared single-bar model (C06 is judged by twin runs only): tab width changes with
+/// tabs in message and prefix, style changes, estimator resets
+#[derive(Clone, Debug)]
+pub enum XOp { TabWidth(usize), MsgTab(String), PrefixTab(String), Style(usize), ResetEta, ResetElapsed }
+fn gen_extras(rng: &mut Rng, n_ops: usize) -> Vec<(usize, XOp)> {
+    let mut v = Vec::new();
+    if rng.chance(1, 2) { return v; }
+    for i in 0..n_ops {
+        if !rng.chance(1, 4) { continue; }
+        let x = match rng.below(7) {
+            0 | 1 => XOp::TabWidth(*rng.pick(&[0usize, 1, 2, 4, 8, 13])),
+            2 => XOp::MsgTab(format!("a\tb{}\t", rng.below(10))), 3 => XOp::PrefixTab(format!("\tp{}", rng.below(10))),
+            4 => XOp::Style(rng.below(TEMPLATES.len() as u64) as usize), 5 => XOp::ResetEta, _ => XOp::ResetElapsed };
+        v.push((i, x));
+    }
+    v
+}
+fn apply_x(p: &ProgressBar, x: &XOp) {
+    match x {
+        XOp::TabWidth(k) => p.set_tab_width(*k), XOp::MsgTab(m) => p.set_message(m.clone()), XOp::PrefixTab(m) => p.set_prefix(m.clone()),
+        XOp::Style(t) => p.set_style(ProgressStyle::with_template(TEMPLATES[*t]).unwrap()), XOp::ResetEta => p.reset_eta(), XOp::ResetElapsed => p.reset_elapsed(),
+    }
+}
 
 /// applies the history; returns the getter values after every operation
-fn drive(pb: ProgressBar, c: &Case) -> Vec<String> {
+fn drive(pb: ProgressBar, c: &Case, xs: &[(usize, XOp)]) -> Vec<String> {
     vh::set_auto_advance_ns(0); vh::set_now_ns(T0);
     let mut now = T0; let mut out = Vec::new(); let mut pb = Some(pb);
-    for op in &c.ops {
+    for (i_op, op) in c.ops.iter().enumerate() {
         if let Some(p) = pb.as_ref() {
+            for (_, x) in xs.iter().filter(|(i, _)| *i == i_op) { apply_x(p, x); out.push(getters(p)); }
             match op {
                 BOp::Adv(d) => { now += d; vh::set_now_ns(now); }
                 BOp::Tick => p.tick(), BOp::Inc(d) => p.inc(*d), BOp::Dec(d) => p.dec(*d), BOp::SetPos(x) => p.set_position(*x),
@@ -36,6 +61,8 @@ fn drive(pb: ProgressBar, c: &Case) -> Vec<String> {
 }
 
 fn make(c: &Case, target: ProgressDrawTarget) -> ProgressBar {
+    // every twin is created at the same virtual instant (the estimator's rates are part of the compared state)
+    vh::set_auto_advance_ns(0); vh::set_now_ns(T0);
     let pb = ProgressBar::with_draw_target(c.len, target);
     pb.set_style(ProgressStyle::with_template(TEMPLATES[c.tpl]).unwrap());
     pb.with_finish(fin_pf(&c.on_finish))
@@ -46,8 +73,9 @@ pub fn child(seed: u64, n: usize) {
     let mut rng = Rng::new(seed);
     for _ in 0..n {
         let c = bar::gen_case(&mut rng, false);
+        let xs = gen_extras(&mut rng, c.ops.len());
         let pb = make(&c, ProgressDrawTarget::stderr());
-        println!("{} {}", pb.is_hidden(), drive(pb, &c).join(";"));
+        println!("{} {}", pb.is_hidden(), drive(pb, &c, &xs).join(";"));
     }
 }
 
@@ -65,16 +93,17 @@ pub fn run(seed: u64, tier: &str, out: &mut Out) {
     let mut rng = Rng::new(seed);
     for i in 0..n {
         let c = bar::gen_case(&mut rng, false);
-        let case = bar::encode(&c, &c.ops.iter().map(|o| o.enc()).collect::<Vec<_>>());
+        let xs = gen_extras(&mut rng, c.ops.len());
+        let case = format!("{} XOPS {:?}", bar::encode(&c, &c.ops.iter().map(|o| o.enc()).collect::<Vec<_>>()), xs).replace('\n', " ");
         let mut verdict = String::from("ok");
         // visible twin
         let rec = Recorder::new(c.h, c.w, false);
-        let visible = drive(make(&c, ProgressDrawTarget::term_like(Box::new(rec.clone()))), &c);
+        let visible = drive(make(&c, ProgressDrawTarget::term_like(Box::new(rec.clone()))), &c, &xs);
         // (a) hidden target
-        let a = drive(make(&c, ProgressDrawTarget::hidden()), &c);
+        let a = drive(make(&c, ProgressDrawTarget::hidden()), &c, &xs);
         // (b) member of a hidden MultiProgress built over a spy terminal that must stay silent... the hidden target has no terminal: use a spy for (c)
         let mp_hidden = MultiProgress::with_draw_target(ProgressDrawTarget::hidden());
-        let b = drive(mp_hidden.add(make(&c, ProgressDrawTarget::hidden())), &c);
+        let b = drive(mp_hidden.add(make(&c, ProgressDrawTarget::hidden())), &c, &xs);
         // (c) removed from a visible MultiProgress: the spy's call count must not move after the removal
         let spy = Recorder::new(c.h, c.w, false);
         let mp = MultiProgress::with_draw_target(ProgressDrawTarget::term_like(Box::new(spy.clone())));
@@ -82,11 +111,11 @@ pub fn run(seed: u64, tier: &str, out: &mut Out) {
         pb.tick();
         mp.remove(&pb);
         let calls_at_removal = spy.calls();
-        let cc = drive(pb, &c);
+        let cc = drive(pb, &c, &xs);
         let calls_after = spy.calls();
         // the extra tick before the removal is not part of the history: getters are unaffected by it
         for (name, t) in [("hidden-target", &a), ("hidden-multi", &b), ("removed", &cc)] {
-            if *t != visible { let k = t.iter().zip(visible.iter()).position(|(x, y)| x != y).unwrap_or(0); verdict = format!("FAIL state-differs kind={name} op={k} {} hidden={} visible={}", c.ops[k].enc(), t[k], visible[k]); break; }
+            if *t != visible { let k = t.iter().zip(visible.iter()).position(|(x, y)| x != y).unwrap_or(0); verdict = format!("FAIL state-differs kind={name} step={k} hidden={} visible={}", t[k], visible[k]); break; }
         }
         if verdict == "ok" && calls_after != calls_at_removal { verdict = format!("FAIL terminal-call-after-removal {} calls", calls_after - calls_at_removal); }
         if verdict == "ok" {
